@@ -90,8 +90,9 @@ func verifSymEntry(name string, kind int) verifEntrySpec {
 	vAssume(e.uid >= 0 && e.uid < 1<<31 && e.gid >= 0 && e.gid < 1<<31)
 	if verifConcreteInstants {
 		// concrete instants: before 1970 (negative nanosecond count), a present-day one with a
-		// nanosecond part, and one second after the epoch
-		e.mtime = []int64{-5000000123, 1600000000123456789, 1000000000}[vChoose("instant", 3)]
+		// nanosecond part, one second after the epoch, and instants within the first / the last
+		// second around the epoch (whole-second arithmetic would take them for "no time")
+		e.mtime = []int64{-5000000123, 1600000000123456789, 1000000000, 500000000, 1, -1, -999999999}[vChoose("instant", 7)]
 	} else {
 		// any instant, kept symbolic (abstract time.Time: no 10^9 division on the way)
 		e.mtime = vI64("mtime")
